@@ -86,6 +86,9 @@ def native_replay(scratch, modules, module, h, vals, outdir):
         return None, "", out[-1500:]
     m = re.search(r"panicked at ([^\n]*):\n([^\n]*)", out)
     if rc != 0 and m:
+        if "VERIF-REPLAY-ASSUME-VIOLATED" in m.group(2):
+            # the concrete values did not satisfy a harness assumption (value order mismatch): not a reproduction
+            return None, "replay values violated a harness assumption", out[-1500:]
         return True, (m.group(2) + " @ " + m.group(1)).strip(), out[-1500:]
     if rc == 0:
         return False, "", out[-800:]
